@@ -83,8 +83,17 @@ Reload(i) ==
   /\ objs' = Append(objs, [objs[i] EXCEPT !.state = <<>>])
   /\ steps' = steps + 1 /\ last' = [a |-> "reload", i |-> i]
 
+\* an engine is built from a composite (Engine(composite=...)) together with an
+\* engine initial state that names the stores the composite's own state names, and
+\* runs: the composite is a template - no object changes
+Run(i) ==
+  /\ steps < MaxSteps /\ i \in DOMAIN objs
+  /\ UNCHANGED objs
+  /\ steps' = steps + 1 /\ last' = [a |-> "run", i |-> i]
+
 Next ==
   \/ \E i \in DOMAIN objs : Reload(i)
+  \/ \E i \in DOMAIN objs : Run(i)
   \/ \E i, j \in DOMAIN objs, n \in {"n1"}, path \in {<<>>, <<"x">>} : MergeBoth(i, j, n, path)
   \/ \E t \in {"A", "B"}, path \in EmbedPaths : Generate(t, path)
   \/ \E i, j \in DOMAIN objs, path \in EmbedPaths : MergeComposite(i, j, path)
@@ -110,6 +119,9 @@ C16_ReloadSame ==
   [][last'.a = "reload" =>
        /\ \A p \in Parts \ {"state"} : objs'[Len(objs')][p] = objs[last'.i][p]
        /\ \A k \in DOMAIN objs : objs'[k] = objs[k]]_vars
+\* C16: an engine built from a composite leaves the template (and every other
+\* object) alone
+C16_RunLeavesTemplate == [][last'.a = "run" => objs' = objs]_vars
 \* C16: a generated composite holds everything under its path
 C16_EmbeddedUnderPath ==
   [][last'.a = "gen" =>
